@@ -203,17 +203,23 @@ func finishTargets(p *Program, E types.Type) (string, []types.Type) {
 		return "", nil
 	}
 	var finishG *ssa.Global
+	var finDirect *ssa.Function // the finisher given as a named function or literal instead of a function variable
 	generic := false
 	ForEachInstr(gsb, func(ins ssa.Instruction) {
 		switch x := ins.(type) {
 		case *ssa.Store:
 			if fa, ok := x.Addr.(*ssa.FieldAddr); ok {
 				st := Deref(fa.X.Type()).Underlying().(*types.Struct)
-				if st.Field(fa.Field).Name() == "finish" {
-					if ld, ok := x.Val.(*ssa.UnOp); ok {
-						if g, ok := ld.X.(*ssa.Global); ok {
+				if _, isSig := st.Field(fa.Field).Type().Underlying().(*types.Signature); isSig {
+					switch v := x.Val.(type) {
+					case *ssa.UnOp:
+						if g, ok := v.X.(*ssa.Global); ok {
 							finishG = g
 						}
+					case *ssa.Function:
+						finDirect = v
+					case *ssa.MakeClosure:
+						finDirect, _ = v.Fn.(*ssa.Function)
 					}
 				}
 			}
@@ -223,12 +229,22 @@ func finishTargets(p *Program, E types.Type) (string, []types.Type) {
 			}
 		}
 	})
-	if generic || finishG == nil {
+	if generic || (finishG == nil && finDirect == nil) {
 		return "generic", nil
 	}
 	// the function stored in the finish global by the package initialiser
-	var fin *ssa.Function
-	if init := finishG.Pkg.Func("init"); init != nil {
+	fin := finDirect
+	finName := ""
+	if fin != nil {
+		finName = fin.Name()
+	} else {
+		finName = finishG.Name()
+	}
+	if init := (*ssa.Function)(nil); finishG != nil {
+		init = finishG.Pkg.Func("init")
+		if init == nil {
+			return finName, nil
+		}
 		ForEachInstr(init, func(ins ssa.Instruction) {
 			if st, ok := ins.(*ssa.Store); ok && st.Addr == finishG {
 				switch v := st.Val.(type) {
@@ -241,7 +257,7 @@ func finishTargets(p *Program, E types.Type) (string, []types.Type) {
 		})
 	}
 	if fin == nil {
-		return finishG.Name(), nil
+		return finName, nil
 	}
 	// types converted to an interface on return paths of fin and of the as*/New* function it calls
 	seen := map[string]types.Type{}
@@ -290,7 +306,7 @@ func finishTargets(p *Program, E types.Type) (string, []types.Type) {
 		out = append(out, t)
 	}
 	sort.Slice(out, func(i, j int) bool { return out[i].String() < out[j].String() })
-	return finishG.Name(), out
+	return finName, out
 }
 
 func ruleBucketRouting(p *Program, r *Report) {
